@@ -325,7 +325,39 @@ class Sym(Interp):
             return [T(self.h_subscript(t, ("const", i), n, None, ctx)) for i in range(k)]
         return [("sub", t, ("const", i)) for i in range(k)]
 
+    def _comp_as_loops(self, n, env, ctx):
+        """[elt for a in A for b in B if c] executed as the loops it abbreviates (tmp = []; for a in A: for b in B: if c: tmp.append(elt)):
+        rules written for the loop form read the comprehension form through this (Sym.desugar, off by default)"""
+        tmp = "_comp_%d_%d" % (n.lineno, n.col_offset)
+
+        def at(node, ref):
+            return ast.fix_missing_locations(ast.copy_location(node, ref))
+        body = at(ast.Expr(ast.Call(ast.Attribute(ast.Name(tmp, ast.Load()), "append", ast.Load()), [n.elt], [])), n.elt)
+        for k in range(len(n.generators) - 1, -1, -1):
+            g = n.generators[k]
+            for c in reversed(g.ifs):
+                body = at(ast.If(c, [body], []), c)
+            body = at(ast.For(g.target, g.iter, [body], [], None), g.iter)
+            body._frac = 0.001 * k
+        first = at(ast.Assign([ast.Name(tmp, ast.Store())], ast.List([], ast.Load())), n)
+        tnames = {x.id for g in n.generators for x in ast.walk(g.target) if isinstance(x, ast.Name)}
+        saved = {k: env[k] for k in tnames if k in env}
+        out = self.exec_block([first, body], env, ctx)
+        if out is None:
+            raise Inconclusive("comprehension body leaves the function", n)
+        val = out[tmp]
+        if out is not env:
+            for k, v in out.items():
+                env[k] = v
+        for k in tnames:
+            env.pop(k, None)
+        env.update(saved)
+        env.pop(tmp, None)
+        return val
+
     def _comp(self, n, env, ctx, kind):
+        if getattr(self, "desugar", False) and kind == "list" and "$outer" not in env and (len(n.generators) > 1 or any(g.ifs for g in n.generators)):
+            return self._comp_as_loops(n, env, ctx)
         e = {"$outer": env}
         for k, v in env.items():
             if k.startswith("$") and k != "$outer":
@@ -755,7 +787,7 @@ class Sym(Interp):
                 itv0 = TupleV([StaticV(k) for k in itv0.items], ARGS)
             if isinstance(itv0, TupleV) and itv0.kind == ARGS:
                 return self._unrolled(s, list(itv0.items), env, ctx)
-        lid = ("loop", getattr(s, "lineno", 0), home_qname(ctx))
+        lid = ("loop", getattr(s, "lineno", 0) + getattr(s, "_frac", 0), home_qname(ctx))
         nfacts = len(self.facts)
         order = self._order
         # pass 1: which names does the body rebind?
